@@ -227,10 +227,13 @@ class VersionedDict(object):
             version = int(version)
         except ValueError:
             raise ValueError("Version must be an integer: %s" % version)
-        if version > 1 and (version - 1) not in self._data[item]:
+        # Note that we use .get() here so that a rejected assignment doesn't
+        # leave an empty entry for item behind
+        existing = self._data.get(item, {})
+        if version > 1 and (version - 1) not in existing:
             raise KeyError("Cannot assign version %i of item before adding "
                            "version %i" % (version, version - 1))
-        if version in self._data[item]:
+        if version in existing:
             raise KeyError("Cannot overwrite version %i of %s" %
                            (version, item))
 
